@@ -228,6 +228,24 @@ def run_zero():
                 va, wa = asobj(val).ravel(), asobj(want).ravel()
                 solve.fact(tag + 'n=0-keeps-the-shape-of-x', np.shape(val) == np.shape(x))
                 solve.prove(tag + 'n=0-returns-f(x)-itself', z3.And(*[lift(u).t == lift(w).t for u, w in zip(va, wa)]) if len(va) == len(wa) else z3.BoolVal(False), paths[0].hyps)
+                # extra positional and keyword arguments reach f on the n == 0 path
+                a_, b_ = real('a'), real('b')
+                seen = []
+
+                def g(z, a, b=None, flag=False):
+                    seen.append((a, b, flag))
+                    return f(z) * a + (b if b is not None else R(0))
+                d3 = core.Derivative(g, method=method, n=0)
+                with warnings.catch_warnings():
+                    warnings.simplefilter('ignore')
+                    p3 = explore(lambda: d3(x, a_, b=b_, flag='yes'), max_paths=8, catch=(Exception,))
+                ok3 = len(p3) == 1 and p3[0].exc is None
+                solve.fact(tag + 'n=0-with-args-and-kwds:single-path-no-exception', ok3, note=str([repr(p.exc)[:120] for p in p3 if p.exc][:1]))
+                if ok3:
+                    solve.fact(tag + 'n=0-forwards-args-and-kwds-unchanged', len(seen) >= 1 and all(s_[0] is a_ and s_[1] is b_ and s_[2] == 'yes' for s_ in seen),
+                               note=str(seen[:1])[:120])
+                    w3 = asobj(f(x) * a_ + b_).ravel()
+                    solve.prove(tag + 'n=0-returns-f(x,*args,**kwds)', z3.And(*[lift(u).t == lift(w).t for u, w in zip(asobj(p3[0].value).ravel(), w3)]), p3[0].hyps)
                 # n set to 0 after construction
                 d2 = core.Derivative(f, method=method, n=2 if method != 'multicomplex' else 1)
                 d2.n = 0
